@@ -191,17 +191,19 @@ pub fn drive(args: &Args) -> i32 {
         let mut toks: Vec<Value> = Vec::new();   // spec-format tokens
         let mut last_row: Option<u32> = None;
         let mut total = 0usize;
+        // lax style (MC_XlsxSheet LaxRows): r on no <row> and on every <c>
+        let lax = rng.gen_bool(0.25);
         for &r in &rows {
             // maybe an empty row in the gap
             let next_impl = last_row.map_or(0, |x| x + 1);
             if r > next_impl && rng.gen_bool(0.3) {
                 let er = rng.gen_range(next_impl..r);
-                let x = er != next_impl || rng.gen_bool(0.5);
+                let x = er != next_impl || lax || rng.gen_bool(0.5);
                 toks.push(json!({"k": "emptyrow", "r": er, "x": x}));
                 last_row = Some(er);
             }
             let next_impl = last_row.map_or(0, |x| x + 1);
-            let x = r != next_impl || rng.gen_bool(0.5);
+            let x = !lax && (r != next_impl || rng.gen_bool(0.5));
             toks.push(json!({"k": "row", "r": r, "x": x}));
             last_row = Some(r);
             let ncols = rng.gen_range(1..=(maxcells / nrows).max(1));
@@ -217,12 +219,12 @@ pub fn drive(args: &Args) -> i32 {
                 let ni = last_col.map_or(0, |x| x + 1);
                 if c > ni && rng.gen_bool(0.15) {
                     let ec = rng.gen_range(ni..c);
-                    let x = ec != ni || rng.gen_bool(0.5);
+                    let x = ec != ni || lax || rng.gen_bool(0.5);
                     toks.push(json!({"k": "c", "p": [r, ec], "x": x, "t": "none", "s": "0", "f": "none", "v": "none", "is": "none"}));
                     last_col = Some(ec);
                 }
                 let ni = last_col.map_or(0, |x| x + 1);
-                let x = c != ni || rng.gen_bool(0.5);
+                let x = c != ni || lax || rng.gen_bool(0.5);
                 let form = [("none", "1"), ("none", "2"), ("n", "1.5"), ("s", "1"), ("b", "1"), ("e", "#N/A"), ("str", "a b")][rng.gen_range(0..7)];
                 toks.push(json!({"k": "c", "p": [r, c], "x": x, "t": form.0, "s": "none", "f": "none", "v": form.1, "is": "none"}));
                 last_col = Some(c);
